@@ -216,6 +216,9 @@ def g_pair(*xs):
 
 # ----------------------------------------------------------------------------
 # evaluating Gallina functions on cases
+MAX_SHARD_BYTES = 1_000_000
+
+
 def coq_eval_verdicts(pid, tag, imports, case_type, case_terms, verdict_fn, shards=NPROC, timeout=900, preamble=''):
     """verdict_fn : case_type -> N  (0 = fine).  Returns ({index: verdict != 0}, errors)."""
     d = os.path.join(WORK, pid)
@@ -224,6 +227,10 @@ def coq_eval_verdicts(pid, tag, imports, case_type, case_terms, verdict_fn, shar
     if n == 0:
         return {}, []
     shards = max(1, min(shards, (n + 49) // 50))
+    # bound the memory of one coqc (about 80 bytes of RSS per byte of case text): no file carries more than ~5 MB of
+    # cases; the pool below runs at most NPROC files at a time
+    total_bytes = sum(len(t) for t in case_terms)
+    shards = max(shards, min(n, (total_bytes + MAX_SHARD_BYTES - 1) // MAX_SHARD_BYTES))
     jobs = []
     for k in range(shards):
         # round-robin: streams often put their heavy cases first, contiguous blocks would leave one shard with all of them
